@@ -67,6 +67,11 @@ prop("C01", "E-GEN",
      "Typed values (min/max/both x exclusivity over 21 boundary numbers squared incl. -0, trailing zeros, last-digit neighbours; precision; minLength/maxLength/ranges/regex; five string formats; explicit types x nullable; const; enum singletons and pairs; arrays x minItems/maxItems) are placed at the root, in a property, in an array, in a type used by @t shortcut, by type:\"@t\", by or:[\"@t\",\"@u\"], as an or rule-set and in a type of a type; Check() must accept exactly when the reference meaning of the rules holds for the example, with explicit no-claim regions.",
      "No claim where the statement does not settle the answer (null under nullable+type, integer literal vs float type, trailing zeros beyond precision, format strings outside clear-cut tables). ASCII strings only.")
 
+prop("C06", "E-GEN",
+     "bounded exhaustive enumeration of type-reference graphs, judged by a least-fixpoint reference (finite instance) and a reachability reference (root requires itself)",
+     "All graphs over @main, @a, @b where each type is an object with 1-2 properties and each property is a scalar, a plain/optional/nullable/array link to one of the three types or a choice of two (650 root forms x 139 reduced forms squared quick; all 650^3 would be thorough-bounded by time), plus all chains @main -> t1 .. tk -> @main up to k=4 (thorough 6) with every mix of 6 link kinds: finite(root) => no recursion error; root reaching itself through plain links => error 104 whatever the length; every accepted schema's Example() returns RFC 8259 JSON.",
+     "Roots infinite only through a cycle not containing the root carry no claim; three types / seven-link chains is the scope.")
+
 ORDER = ["C%02d" % i for i in range(1, 21)]
 
 def main():
